@@ -484,3 +484,13 @@ def hunt2_rules(chk, repo):
         else:
             chk.violation("C05.errtext", r, K.short(r, 70), f"{raw_hdr[0]}.encode('ascii', 'backslashreplace').decode('ascii')",
                           "the Expect header value is echoed verbatim into the 417 text: header bytes that are not UTF-8 arrive as lone surrogates, Response(text=...) raises UnicodeEncodeError while the error is being built and the connection is dropped without any response (`Expect: 100-continu\\xff`)")
+    # ---- C05.once.nobody: enable_compression() on a response without a body does not fail while the response is being sent ---------------------
+    WRESP_ = "aiohttp/web_response.py"
+    dc = repo.func(WRESP_, "Response._do_start_compression")
+    asserts = [a for a in ast.walk(dc.node) if isinstance(a, ast.Assert) and "self._body" in norm.raw(a.test)]
+    early = [r for r in ast.walk(dc.node) if isinstance(r, ast.Return) and any("self._body is None" in l.text and l.pos for c in PC.pc(r, raw=True) for l in c)]
+    if early or not asserts:
+        chk.ok("C05.once.nobody", dc, "a body-less Response with compression enabled is sent as it is")
+    else:
+        chk.violation("C05.once.nobody", asserts[0], K.short(asserts[0]), "if coding is ContentCoding.identity or self._body is None: return",
+                      "web.Response() has body None by default; with enable_compression() (a compress-everything middleware) the assertion fails inside finish_response(), outside the clauses that turn handler errors into a 500: start() logs `Unhandled exception` and force-closes - the client gets ServerDisconnectedError instead of the 201/204")
